@@ -14,6 +14,7 @@ import EG.Model.CheckedSector
 import EG.Model.CheckedStyledScanline
 import EG.Model.CheckedSegment
 import EG.Model.ThickPolyline
+import EG.Model.CheckedFont
 namespace EG.Driver
 open EG
 
@@ -475,6 +476,19 @@ private def polyDraw (p0 p1 p2 : Pt) (w : Nat) (c : Color) (n : Nat) : R (List (
   let bb ← chk (Chk.Joins.foldEdgeBoxes [s1, s2])
   polyDrawRows s1 s2 c n ((bb.rowsEnd - bb.tl.y).toNat + 1) bb.tl.y bb.rowsEnd []
 
+/-! ### glyph rendering: `MonoTextStyle::draw_string` with a user-defined font over a blank atlas -/
+
+private def fmtGlyphCall : Call → String
+  | .drawIter px => s!"di:{px.length}"
+  | .fillContiguous a cs => s!"fc:{fmtRect a}:{cs.length}"
+  | .fillSolid a c => s!"fs:{fmtRect a}:{c}"
+  | .clear c => s!"cl:{c}"
+
+private def decoOf (n : Nat) : Font.DecoColor := if n == 0 then .none else if n == 1 then .textColor else .custom 5
+
+private def baselineOf (n : Nat) : Font.Baseline :=
+  if n == 0 then .top else if n == 1 then .bottom else if n == 2 then .middle else .alphabetic
+
 private def readTri (t : Toks) : Triangle × Toks :=
   let (a, t) := t.pt; let (b, t) := t.pt; let (c, t) := t.pt
   (⟨a, b, c⟩, t)
@@ -554,6 +568,19 @@ def handleChk2 (kernel : String) (t : Toks) : Option String :=
     let (p0, t) := t.pt; let (p1, t) := t.pt; let (p2, t) := t.pt
     let (w, t) := t.nat; let (n, _) := t.nat
     (polyDraw p0 p1 p2 w 9 n).out fmtCalls
+  | "glyph" =>
+    let (imgW, t) := t.nat; let (imgH, t) := t.nat; let (cw, t) := t.nat; let (ch, t) := t.nat
+    let (sp, t) := t.nat; let (bl, t) := t.nat; let (ulOff, t) := t.nat; let (ulH, t) := t.nat
+    let (stOff, t) := t.nat; let (stH, t) := t.nat; let (mul, t) := t.nat
+    let (colours, t) := t.nat; let (ul, t) := t.nat; let (st, t) := t.nat; let (base, t) := t.nat
+    let (pos, t) := t.pt; let (text, _) := t.natList
+    let f : Font.MonoFont := ⟨imgW, imgH, cw, ch, sp, bl, ulOff, ulH, stOff, stH, fun c => (c - 32) * mul⟩
+    let style : Font.Style :=
+      ⟨if colours % 2 == 1 then some 1 else none, if colours / 2 % 2 == 1 then some 2 else none,
+       decoOf ul, decoOf st⟩
+    some (orPanic2 (fun (r : List Call × Pt) =>
+        s!"calls={joinOr "|" (r.1.map fmtGlyphCall)} next={r.2.x},{r.2.y}")
+      (Chk.Font.drawString f (fun _ => false) style text pos (baselineOf base)))
   | _ => none
 
 end EG.Driver
